@@ -2,7 +2,7 @@ from lanes import *  # noqa
 
 PROP = {
         "level": "exploration",
-        "level_text": "Seeded and exhaustive-sub-space exploration with a reference classifier as oracle: every parser entry point is run under catch_unwind on 10^7 (quick) to 10^8+ (thorough) inputs - all strings up to length 3-4 over each parser's alphabet, every single-edit neighbour of thousands of well-formed texts, random strings - and every value round trip is compared with an independent calendar / hex reference; calendar parts are converted both ways for every day 1970..9999. Held-on-what-was-observed, not a proof over all strings.",
+        "level_text": "Seeded and exhaustive-sub-space exploration with a reference classifier as oracle: every parser entry point is run under catch_unwind on 10^7 (quick) to 10^8+ (thorough) inputs - all strings up to length 3-4 over each parser's alphabet, every single-edit neighbour of thousands of well-formed texts, random strings - every parser that can be reached by casting a property value is additionally run with the same text arriving in an owned buffer, a shared buffer and as the Display output of a foreign type (all entry points of a parser must agree), and every value round trip is compared with an independent calendar / hex reference; calendar parts are converted both ways for every day 1970..9999. Held-on-what-was-observed, not a proof over all strings.",
         "level_note": "Trusts the reference classifiers in harness/mon/src/bin/c15.rs (written from the documented grammars) and std's catch_unwind; the unconstrained classes listed in DESIGN.md C15/U are checked for totality only.",
         "technique": "runtime monitoring: reference-oracle monitor over exhaustive short strings, grammar near-misses and seeded random inputs, all calls under catch_unwind",
         "assumptions": [
